@@ -82,7 +82,7 @@ CHECKS = {
     'C18': dict(engine='KT', technique='kernel translation: the real source of the serial/date kernels and date functions interpreted symbolically into z3 (Int/Real arithmetic; datetime as ordinal + seconds; calendar fields as uninterpreted functions / days-from-civil); one query per obligation',
                 text='Bounded symbolic model checking by source->SMT translation: serial<->date is the 1900 system and a bijection for EVERY whole serial 1..2958465 (one query each); time of day = fraction; '
                      'DAY/MONTH/YEAR/ISOWEEKNUM and WEEKDAY (all ten return types, every invalid type) for every serial 61..2958465; DATE(YEAR,MONTH,DAY)=n; DATE carry for all months/days in -60..60 '
-                     '(thorough -2000..2000) on 10 representative years; EDATE/EOMONTH for every day of 7 representative years x offsets -24..24 (thorough -600..600); DAYS, DATEDIF("d"), YEARFRAC bases 2/3 over '
+                     '(thorough -2000..2000) on 10 representative years; EDATE/EOMONTH for every day of 7 representative years x offsets -24..24 (thorough -120..120); DAYS, DATEDIF("d"), YEARFRAC bases 2/3 over '
                      'all pairs of serials. Boundary inputs and solver models are replayed on the real functions.',
                 note='Trusted: kt/kt.py, kt/models_date.py (datetime/timedelta/relativedelta/rrule(DAILY) models, days-from-civil formula), z3. Outside: DATEDIF units M/Y/MD/YM/YD, YEARFRAC bases 0/1/4 '
                      '(third-party iteration/tables), NOW/TODAY, serial 60; DATE/EDATE/EOMONTH over ALL years at once (z3 answers unknown) - representative years instead.'),
